@@ -372,7 +372,25 @@ class AsyncInotifyWrapper:
             # Mark watches that inotify reports as removed
             path = Path(event.path)
             if event.mask & Mask.IGNORED:
-                self.watches[path] = None
+                # The notice of a watch that was removed explicitly is queued behind the events
+                # that were already pending, so it can arrive after the directory has reappeared
+                # and a new watch was installed for the same path: only clear the watch it is about.
+                if self.watches.get(path) is event.watch:
+                    self.watches[path] = None
+                continue
+            if event.mask & (Mask.DELETE_SELF | Mask.MOVE_SELF):
+                # The watched directory itself was removed or moved away.
+                # Its own watch reports this without the ISDIR flag,
+                # and possibly before the parent directory reports the same removal,
+                # in which case the watch is already cleared by the time that report arrives.
+                # Handle it like the parent's report: as the removal of a directory,
+                # so the directory counts as a lost glob match (with its trailing separator)
+                # and everything recorded under it is reported as deleted.
+                if event.mask & Mask.MOVE_SELF and self.watches.get(path) is event.watch:
+                    # A watch follows the directory to its new location: let go of it.
+                    self.inotify.rm_watch(event.watch)
+                    self.watches[path] = None
+                self.change_queue.put_nowait((Change.DELETED_PARENT, path))
                 continue
             # Determine the type of change
             change = (
